@@ -475,7 +475,7 @@ Proof.
   rewrite Hval. cbn [negb].
   assert (Hmin : (llong_min <= 0)%Z) by (vm_compute; discriminate).
   destruct (((0 * p + Z.of_N n <? llong_min)%Z || (llong_max <? 0 * p + Z.of_N n)%Z)) eqn:E; [lia|].
-  f_equal. lia.
+  f_equal; lia.
 Qed.
 
 (* ... and one above INT64_MAX is not read at all (strtoll ERANGE): getInt64 gives -1 *)
